@@ -36,6 +36,7 @@ TIED = {
  "C14": "_expand_one_node, skip_to_minimal, skip_remaining, reclaim_node_data, expand_source_SCCs.attach_scc_subdiagram (cache clearing)",
  "C15": "the limit handling of expand_bfs.py, expand_dfs.py, expand_to_target.py, expand_minimal_spaces.py, expand_attractor_seeds.py",
  "C16": "SuccessionDiagram.__getstate__ / __setstate__, reclaim_node_data",
+ "C17": "petri_net_translation.sanitize_network_names",
  "C19": "_expand_one_node (sorting by key), expand_bfs.py, expand_dfs.py (sorted successors)",
  "C20": "space_utils.space_unique_key, __init__, _ensure_node / _update_node_depth, depth, __len__, root, node_is_minimal, is_subgraph, is_isomorphic, find_node, node_ids / stub_ids / expanded_ids, edge_stable_motif / edge_all_stable_motifs",
 }
